@@ -492,8 +492,8 @@ def spec_s(draw, tier, with_readers):
 
 
 FACETS = [
-    Facet("sequential-histories", guarded("cache", check), strategy=lambda tier: spec_s(tier, False), budget={"quick": 300, "thorough": 3000},
+    Facet("sequential-histories", guarded("cache", check), strategy=lambda tier: spec_s(tier, False), budget={"quick": 1200, "thorough": 3000},
           shards={"quick": 10, "thorough": 16}, min_nontrivial={"quick": 100, "thorough": 1000}, case_timeout=120),
-    Facet("concurrent-readers", guarded("cache", check), strategy=lambda tier: spec_s(tier, True), budget={"quick": 60, "thorough": 800},
+    Facet("concurrent-readers", guarded("cache", check), strategy=lambda tier: spec_s(tier, True), budget={"quick": 120, "thorough": 800},
           shards={"quick": 6, "thorough": 16}, min_nontrivial={"quick": 20, "thorough": 250}, case_timeout=180),
 ]
